@@ -4,7 +4,8 @@ import MuscleModel.Reflector.Handlers
 /-!
 # C05 — the wildcard traversal visits exactly the nodes a one-by-one path test selects, once each
 
-Property theorems only (lemmas: `Reflector/TravProofs.lean`, `TravProofsLevel.lean`, `TravProofsMain.lean`; model of
+Property theorems only (lemmas: `Reflector/TravProofs.lean`, `TravProofsLevel.lean`, `TravProofsMain.lean`,
+`TravProofsRoute.lean`, `TravProofsCouple.lean`; model of
 `NodePathMatcher::DoTraversalAux` / `DoDirectChildLookup` / `CheckChildForTraversal`: `Reflector/Traverse.lean`).
 
 Hypotheses (all defined in `Reflector/TravProofs*.lean`):
@@ -16,8 +17,9 @@ Hypotheses (all defined in `Reflector/TravProofs*.lean`):
   they are what makes the literal-lookup fast path agree with the child-iteration path.
 NOT needed: distinct group keys, distinct entry paths inside a group, `clauses.length ≥ 1`.
 Further theorems: `route_once_per_session_node` / `route_once_per_session` / `route_sessions_exact` for the
-skip-to-next-session callback of `route` (hypothesis `pmMinClauses 3 pm`; the example at the end shows it cannot be
-weakened to 2: the known double delivery when a pattern for the session node itself accompanies a deeper one).
+skip-to-next-session callback of `route`, hypothesis `pmMinClauses 2 pm` (with the rule of `CheckChildForTraversal`
+repaired for finding F27; the statements with `pmMinClauses 3` that held before are kept as `…_min3` corollaries, and
+the examples at the end run the F27 shape under the repaired rule and under a copy of the old rule).
 The traversal and the brute-force oracle consume fuel in lock step (one unit per tree level), so the statement holds
 for every `fuel` with the same value on both sides; `traversal_eq_bruteforce_any_fuel` removes the coupling for fuel
 covering the tree (`fits`).
@@ -93,12 +95,17 @@ example : ClauseLaws exPM := by
 `route` (Handlers.lean, `PassMessageCallbackAux`) runs the traversal from the global root (`rootDepth = 0`) with the
 callback `fun _ _ _ => (true, 1)` (deliver, return `NODE_DEPTH_HOSTNAME` = skip to the next session). -/
 
-/-- With the skip callback and every pattern at least 3 clauses deep (`pmMinClauses 3`: host/session/node…, what the
-    implicit `*/*` prefix of relative patterns yields), at most one visit is recorded below each session node: the
-    (host, session) prefixes of the recorded paths are pairwise different, and each visit lies below a session node
-    of the tree.  No pattern law and no `pmWF` is needed. -/
+/-- With the skip callback and every pattern at least 2 clauses deep (`pmMinClauses 2`: host/session…; every key
+    of a client Message is, since relative keys get the `*/*` prefix and absolute ones name host and session), at
+    most one visit is recorded per session node — the session node itself or one node below it: the (host, session)
+    prefixes of the recorded paths are pairwise different, and each visit is a session node of the tree or lies
+    below one.  No pattern law and no `pmWF` is needed.
+    (Repaired rule of `CheckChildForTraversal`, finding F27: before it this needed `pmMinClauses 3`.)
+    A 1-clause pattern is excluded because it matches host nodes: such a visit `[h]` has no session
+    (`ownerName [h] = none`, `route` skips it), so the second conjunct fails, and two matching hosts give the owner
+    `none` twice; the callback's answer 1 at a host node (depth 1) neither aborts nor rules out the descent. -/
 theorem route_once_per_session_node (pm : PM) (useFilters : Bool) (node : Node) (fuel : Nat)
-    (hmin : pmMinClauses 3 pm = true) (hkids : kidsNodup fuel node = true) :
+    (hmin : pmMinClauses 2 pm = true) (hkids : kidsNodup fuel node = true) :
     ((doTraversal pm useFilters 0 (fun _ _ _ => (true, 1)) node fuel).map (List.take 2)).Nodup ∧
     ∀ v ∈ doTraversal pm useFilters 0 (fun _ _ _ => (true, 1)) node fuel,
       ∃ h ∈ node.kids, ∃ s ∈ h.kids, [h.name, s.name] <+: v :=
@@ -107,7 +114,7 @@ theorem route_once_per_session_node (pm : PM) (useFilters : Bool) (node : Node) 
 /-- … hence, when session names are unique across hosts (`SessUnique`: session ids are server-wide unique), the
     visits have pairwise different `ownerName`: `route` delivers at most once to each session. -/
 theorem route_once_per_session (pm : PM) (useFilters : Bool) (node : Node) (fuel : Nat)
-    (hmin : pmMinClauses 3 pm = true) (hkids : kidsNodup fuel node = true) (hsess : SessUnique node) :
+    (hmin : pmMinClauses 2 pm = true) (hkids : kidsNodup fuel node = true) (hsess : SessUnique node) :
     ((doTraversal pm useFilters 0 (fun _ _ _ => (true, 1)) node fuel).map ownerName).Nodup := by
   obtain ⟨h1, h2⟩ := route_once_per_session_node pm useFilters node fuel hmin hkids
   refine nodup_map_of_pairwise h1 ?_
@@ -122,16 +129,17 @@ theorem route_once_per_session (pm : PM) (useFilters : Bool) (node : Node) (fuel
 
 /-- the same for the traversal `route` performs on a server state -/
 theorem route_once_per_session_server (sv : Server) (pm : PM)
-    (hmin : pmMinClauses 3 pm = true) (hkids : kidsNodup fuelDepth sv.root = true) (hsess : SessUnique sv.root) :
+    (hmin : pmMinClauses 2 pm = true) (hkids : kidsNodup fuelDepth sv.root = true) (hsess : SessUnique sv.root) :
     ((travGlobal sv pm true (fun _ _ _ => (true, 1))).map ownerName).Nodup :=
   route_once_per_session pm true sv.root fuelDepth hmin hkids hsess
 
-/-- Which sessions get the Message: with the skip callback (and every pattern ≥ 3 clauses deep) every recorded
+/-- Which sessions get the Message: with the skip callback (and every pattern ≥ 2 clauses deep) every recorded
     visit is a node the one-by-one test accepts, and every node the one-by-one test accepts has a recorded visit
     in the same session subtree (same (host, session) prefix).  Together with `route_once_per_session_node`:
-    exactly one visit in each session that owns at least one matching node, none in any other. -/
+    exactly one visit in each session that owns at least one matching node (the session node itself counts), none
+    in any other. -/
 theorem route_sessions_exact (pm : PM) (useFilters : Bool) (node : Node) (fuel : Nat)
-    (hmin : pmMinClauses 3 pm = true) (hwf : pmWF pm = true) (hlaws : ClauseLaws pm)
+    (hmin : pmMinClauses 2 pm = true) (hwf : pmWF pm = true) (hlaws : ClauseLaws pm)
     (hkids : kidsNodup fuel node = true) :
     (∀ v ∈ doTraversal pm useFilters 0 (fun _ _ _ => (true, 1)) node fuel, v ∈ bruteForce pm useFilters node fuel) ∧
     (∀ w ∈ bruteForce pm useFilters node fuel,
@@ -142,35 +150,191 @@ theorem route_sessions_exact (pm : PM) (useFilters : Bool) (node : Node) (fuel :
   · intro v hv; exact (hb v).1 (h1 v hv)
   · intro w hw; exact h2 w ((hb w).2 hw)
 
-/-! ### non-vacuity, and the known exception: with a pattern for the session node itself next to a deeper one
-    (`pmMinClauses 2` only) the same session is visited twice -/
+/-! ### the statements as they stood before the repair of F27 (`pmMinClauses 3`), now corollaries -/
 
+theorem route_once_per_session_node_min3 (pm : PM) (useFilters : Bool) (node : Node) (fuel : Nat)
+    (hmin : pmMinClauses 3 pm = true) (hkids : kidsNodup fuel node = true) :
+    ((doTraversal pm useFilters 0 (fun _ _ _ => (true, 1)) node fuel).map (List.take 2)).Nodup ∧
+    ∀ v ∈ doTraversal pm useFilters 0 (fun _ _ _ => (true, 1)) node fuel,
+      ∃ h ∈ node.kids, ∃ s ∈ h.kids, [h.name, s.name] <+: v :=
+  route_once_per_session_node pm useFilters node fuel (pmMinClauses_mono (by decide) hmin) hkids
+
+theorem route_once_per_session_min3 (pm : PM) (useFilters : Bool) (node : Node) (fuel : Nat)
+    (hmin : pmMinClauses 3 pm = true) (hkids : kidsNodup fuel node = true) (hsess : SessUnique node) :
+    ((doTraversal pm useFilters 0 (fun _ _ _ => (true, 1)) node fuel).map ownerName).Nodup :=
+  route_once_per_session pm useFilters node fuel (pmMinClauses_mono (by decide) hmin) hkids hsess
+
+theorem route_once_per_session_server_min3 (sv : Server) (pm : PM)
+    (hmin : pmMinClauses 3 pm = true) (hkids : kidsNodup fuelDepth sv.root = true) (hsess : SessUnique sv.root) :
+    ((travGlobal sv pm true (fun _ _ _ => (true, 1))).map ownerName).Nodup :=
+  route_once_per_session_server sv pm (pmMinClauses_mono (by decide) hmin) hkids hsess
+
+theorem route_sessions_exact_min3 (pm : PM) (useFilters : Bool) (node : Node) (fuel : Nat)
+    (hmin : pmMinClauses 3 pm = true) (hwf : pmWF pm = true) (hlaws : ClauseLaws pm)
+    (hkids : kidsNodup fuel node = true) :
+    (∀ v ∈ doTraversal pm useFilters 0 (fun _ _ _ => (true, 1)) node fuel, v ∈ bruteForce pm useFilters node fuel) ∧
+    (∀ w ∈ bruteForce pm useFilters node fuel,
+       ∃ v ∈ doTraversal pm useFilters 0 (fun _ _ _ => (true, 1)) node fuel, v.take 2 = w.take 2) :=
+  route_sessions_exact pm useFilters node fuel (pmMinClauses_mono (by decide) hmin) hwf hlaws hkids
+
+/-! ### non-vacuity -/
+
+/-- one host `h` with the sessions `s` and `t`, each owning one node `x` -/
 def exSrvTree : Node :=
   .mk [] none [.mk [104] none [.mk [115] none [.mk [120] none [] [] 0 []] [] 0 [],
                                .mk [116] none [.mk [120] none [] [] 0 []] [] 0 []] [] 0 []] [] 0 []
 
 def exPM3 : PM := [(3, [{ path := [], clauses := [[42], [42], [42]], filter := none }])]
+/-- `*/*/*` then `*/*` -/
 def exPM2 : PM := [(3, [{ path := [], clauses := [[42], [42], [42]], filter := none }]),
                    (2, [{ path := [], clauses := [[42], [42]], filter := none }])]
 
 example : pmMinClauses 3 exPM3 = true ∧ pmWF exPM3 = true ∧ kidsNodup 4 exSrvTree = true := by decide
-example : ClauseLaws exPM3 := by
-  intro e he c hc
-  simp [allEntries, exPM3] at he
-  subst he
-  simp at hc
-  subst hc
-  exact laws_star
+example : pmMinClauses 2 exPM2 = true ∧ pmWF exPM2 = true := by decide
+example : ClauseLaws exPM3 := laws_of_star_only (by simp [allEntries, exPM3])
+example : ClauseLaws exPM2 := laws_of_star_only (by simp [allEntries, exPM2])
 example : SessUnique exSrvTree := by
   intro h hh h' hh' _ _ _ _ _
   simp [exSrvTree, Node.kids] at hh hh'
   rw [hh, hh']
 
+/-! ### finding F27: a session-level key together with a deeper one
 
-/-- the known exception, on the model: `*/*/*` together with `*/*` (only `pmMinClauses 2`) visits every session twice -/
-example : pmMinClauses 2 exPM2 = true ∧ pmWF exPM2 = true ∧ kidsNodup 4 exSrvTree = true ∧
-    doTraversal exPM2 true 0 (fun _ _ _ => (true, 1)) exSrvTree 4
+The shape that fired F27: keys `/*/*` and `/*/*/?` (in this order in the matcher) on a tree with two sessions.
+Under the repaired rule each session is visited once (the session node; the callback's answer 1 rules out the
+descent).  `OldRule` is a verbatim copy of the traversal as it was modelled before the repair (only `checkEntries`
+differs: no `recursed`/`matched` update from the returned depth); on the same shape it visits each session twice.
+(`?` needs `matchToks`, defined by well-founded recursion, which `decide` cannot evaluate; the repaired rule never
+evaluates the third clause here, the old rule does, so the old-rule example uses `/*/*/*`, which the null matcher
+evaluates; `#eval` gives the same four visits for `/*/*/?`.) -/
+
+def exF27 : PM := [(2, [{ path := [42, 47, 42], clauses := [[42], [42]], filter := none }]),
+                   (3, [{ path := [42, 47, 42, 47, 63], clauses := [[42], [42], [63]], filter := none }])]
+def exF27star : PM := [(2, [{ path := [42, 47, 42], clauses := [[42], [42]], filter := none }]),
+                       (3, [{ path := [42, 47, 42, 47, 42], clauses := [[42], [42], [42]], filter := none }])]
+
+/-- repaired rule: each owner once, whichever of the two keys comes first -/
+example : pmMinClauses 2 exF27 = true ∧ pmWF exF27 = true ∧ kidsNodup 4 exSrvTree = true ∧
+    doTraversal exF27 true 0 (fun _ _ _ => (true, 1)) exSrvTree 4 = [[[104], [115]], [[104], [116]]] ∧
+    (doTraversal exF27 true 0 (fun _ _ _ => (true, 1)) exSrvTree 4).map ownerName = [some [115], some [116]] ∧
+    doTraversal exF27star true 0 (fun _ _ _ => (true, 1)) exSrvTree 4 = [[[104], [115]], [[104], [116]]] ∧
+    doTraversal exPM2 true 0 (fun _ _ _ => (true, 1)) exSrvTree 4 = [[[104], [115], [120]], [[104], [116], [120]]] ∧
+    (doTraversal exPM2 true 0 (fun _ _ _ => (true, 1)) exSrvTree 4).map ownerName = [some [115], some [116]] := by
+  decide
+
+namespace OldRule
+
+/-- the entry loops of `CheckChildForTraversal` -/
+def checkEntriesOld (ctx : TCtx) (rec : Rec) (child : Node) (cnames : Visit) (depth : Nat) (known : Option Nat) :
+    List Entry → Nat → CState → CState
+  | [], _, st => st
+  | e :: es, idx, st =>
+    if st.done || st.abort.isSome then st else
+    let rel := depth - ctx.rootDepth
+    let childDepth : Int := depth + 1
+    let hit : Bool := (known = some idx) || (match e.clauses[rel]? with | some c => clauseMatch c child.name | none => false)
+    let st' : CState :=
+      if !hit then st
+      else if depth + 1 = ctx.rootDepth + e.clauses.length then
+        -- terminal clause of this entry: the callback, at most once per child
+        if st.matched then st else
+        if (onlyOneEntry ctx.pm && (!ctx.useFilters || e.filter.isNone)) || matchesNode ctx.pm cnames ctx.useFilters child.data then
+          let (rc, nd) := ctx.cb cnames (depth + 1) child
+          let vs := if rc then st.visits ++ [cnames] else st.visits
+          if nd < childDepth - 1 then { st with visits := vs, abort := some nd }
+          else { st with visits := vs, matched := true, done := st.recursed }
+        else st
+      else
+        -- a non-terminal clause matched: descend, at most once per child
+        if st.recursed then st else
+        let (vs, nd) := rec child cnames (depth + 1)
+        if nd < childDepth - 1 then { st with visits := st.visits ++ vs, abort := some nd }
+        else { st with visits := st.visits ++ vs, recursed := true, done := st.matched }
+    checkEntriesOld ctx rec child cnames depth known es (idx + 1) st'
+
+/-- `CheckChildForTraversal(data, child, optKnownMatchingEntryIdx, depth)`: (visits, abort-to-depth) -/
+def checkChildOld (ctx : TCtx) (rec : Rec) (child : Node) (names : Visit) (depth : Nat) (known : Option Nat) :
+    List Visit × Option Int :=
+  let st := checkEntriesOld ctx rec child (names ++ [child.name]) depth known
+              (activeEntries ctx.pm (depth - ctx.rootDepth)) 0 {}
+  (st.visits, st.abort)
+
+/-- the child-iteration loop of the general case -/
+def travKidsOld (ctx : TCtx) (rec : Rec) (names : Visit) (depth : Nat) : List Node → List Visit → List Visit × Int
+  | [], acc => (acc, depth)
+  | k :: r, acc =>
+    match checkChildOld ctx rec k names depth none with
+    | (vs, some d) => (acc ++ vs, d)
+    | (vs, none) => travKidsOld ctx rec names depth r (acc ++ vs)
+
+/-- `DoDirectChildLookup` for each element of one entry's clause; `did` = the `alreadyDid` set -/
+def lookupElemsOld (ctx : TCtx) (rec : Rec) (node : Node) (names : Visit) (depth : Nat) (idx : Nat) :
+    List Bytes → List Bytes → List Visit → List Visit × List Bytes × Option Int
+  | [], did, acc => (acc, did, none)
+  | el :: els, did, acc =>
+    let nm := unescape el
+    match findKid nm node.kids with
+    | none => lookupElemsOld ctx rec node names depth idx els did acc
+    | some k =>
+      if did.contains nm then lookupElemsOld ctx rec node names depth idx els did acc else
+      match checkChildOld ctx rec k names depth (some idx) with
+      | (vs, some d) => (acc ++ vs, did, some d)
+      | (vs, none) => lookupElemsOld ctx rec node names depth idx els (nm :: did) (acc ++ vs)
+
+/-- the entry loop of the optimized case -/
+def travLookupsOld (ctx : TCtx) (rec : Rec) (node : Node) (names : Visit) (depth : Nat) :
+    List Entry → Nat → List Bytes → List Visit → List Visit × Int
+  | [], _, _, acc => (acc, depth)
+  | e :: es, idx, did, acc =>
+    let key := (e.clauses[depth - ctx.rootDepth]?).getD []
+    let elems : List Bytes := if isUVList key then (splitCommas key).filter (fun x => !x.isEmpty) else [key]
+    match lookupElemsOld ctx rec node names depth idx elems did acc with
+    | (acc', _, some d) => (acc', d)
+    | (acc', did', none) => travLookupsOld ctx rec node names depth es (idx + 1) did' acc'
+
+/-- one level of `DoTraversalAux` -/
+def travLevelOld (ctx : TCtx) (rec : Rec) (node : Node) (names : Visit) (depth : Nat) : List Visit × Int :=
+  let rel := depth - ctx.rootDepth
+  if parsersHaveWildcards ctx.pm rel then travKidsOld ctx rec names depth node.kids []
+  else travLookupsOld ctx rec node names depth (activeEntries ctx.pm rel) 0 [] []
+
+/-- `DoTraversalAux(data, node)`: (visits, returned depth); `fuel` bounds the depth of descent -/
+def travAuxOld (ctx : TCtx) : Nat → Node → Visit → Nat → List Visit × Int
+  | 0, _, _, depth => ([], depth)
+  | fuel+1, node, names, depth => travLevelOld ctx (travAuxOld ctx fuel) node names depth
+
+/-- `DoTraversal(cb, This, node, useFilters, userData)`: the recorded visits, in order -/
+def doTraversalOld (pm : PM) (useFilters : Bool) (rootDepth : Nat) (cb : Visit → Nat → Node → Bool × Int)
+    (node : Node) (fuel : Nat) : List Visit :=
+  (travAuxOld { pm := pm, useFilters := useFilters, rootDepth := rootDepth, cb := cb } fuel node [] rootDepth).1
+
+
+end OldRule
+
+/-- old rule: each owner twice (this was F27), for either order of the two keys -/
+example :
+    OldRule.doTraversalOld exF27star true 0 (fun _ _ _ => (true, 1)) exSrvTree 4
+      = [[[104], [115]], [[104], [115], [120]], [[104], [116]], [[104], [116], [120]]] ∧
+    (OldRule.doTraversalOld exF27star true 0 (fun _ _ _ => (true, 1)) exSrvTree 4).map ownerName
+      = [some [115], some [115], some [116], some [116]] ∧
+    OldRule.doTraversalOld exPM2 true 0 (fun _ _ _ => (true, 1)) exSrvTree 4
       = [[[104], [115], [120]], [[104], [115]], [[104], [116], [120]], [[104], [116]]] ∧
-    ¬ ((doTraversal exPM2 true 0 (fun _ _ _ => (true, 1)) exSrvTree 4).map ownerName).Nodup := by decide
+    ¬ ((OldRule.doTraversalOld exPM2 true 0 (fun _ _ _ => (true, 1)) exSrvTree 4).map ownerName).Nodup := by
+  decide
+
+/-- under the continue-callback the two rules agree on these inputs (in general: `checkEntries_cons_cont`, the
+    new conditions are never true when a non-aborting level returns its own depth) -/
+example : OldRule.doTraversalOld exF27star true 0 cbContinue exSrvTree 4 = doTraversal exF27star true 0 cbContinue exSrvTree 4 := by
+  decide
+
+/-! ### a 1-clause pattern: host nodes are visited, they have no owner -/
+
+def exTwoHosts : Node :=
+  .mk [] none [.mk [104] none [.mk [115] none [] [] 0 []] [] 0 [], .mk [105] none [.mk [116] none [] [] 0 []] [] 0 []] [] 0 []
+def exPM1 : PM := [(1, [{ path := [42], clauses := [[42]], filter := none }])]
+
+example : pmMinClauses 1 exPM1 = true ∧ pmMinClauses 2 exPM1 = false ∧ kidsNodup 4 exTwoHosts = true ∧
+    doTraversal exPM1 true 0 (fun _ _ _ => (true, 1)) exTwoHosts 4 = [[[104]], [[105]]] ∧
+    (doTraversal exPM1 true 0 (fun _ _ _ => (true, 1)) exTwoHosts 4).map ownerName = [none, none] := by decide
 
 end Muscle.Props.C05
